@@ -256,4 +256,62 @@ theorem inv_sysDeepcopy {κ : Nat → String} {s : State} (h : InvK κ s) (i : N
     simp only []
     exact (inv_pushSys hinv1 { s.sys i with atoms := a } (ha a rfl) hpbc).good
 
+/-! ### `System(…, scale=True, safecopy=True)` -/
+
+theorem inv_mkSysX {κ : Nat → String} {s : State} (h : InvK κ s) (o : Nat) (box : Box Rat) (pbc : List Bool)
+    (symbols : Option (List (Option String))) (masses : Option (List (Option Rat))) (scale safecopy : Bool)
+    (ho : o < s.objs.length) :
+    Post (mkSysX o box pbc symbols masses scale safecopy) s (fun _ s' => Good κ s s') := by
+  unfold mkSysX
+  rw [post_atomic]
+  suffices hall : Post (do
+      let a ← (if safecopy then deepcopy o else pure o : M Nat)
+      let i ← mkSys a box pbc symbols masses
+      (if scale then do
+        let s ← getS
+        let pa ← keyErr ((s.obj a).find "pos")
+        sysPropSetScaled i "pos" none (arrVal s pa)
+       else pure () : M Unit)
+      pure (a, i) : M (Nat × Nat)) s (fun _ s' => Good κ s s') by
+    apply Post.mono hall
+    intro r s' hg
+    cases r with
+    | error e => exact Good.refl h
+    | ok a => exact hg
+  apply post_good_bind (P := fun r s1 => ∀ a, r = .ok a → a < s1.objs.length)
+  · cases safecopy with
+    | true =>
+      apply Post.mono (inv_deepcopy h o)
+      intro r s1 hm
+      refine ⟨Good.of_made hm, ?_⟩
+      intro a ha; subst ha; exact hm.lt
+    | false =>
+      refine ⟨Good.refl h, ?_⟩
+      intro a ha
+      have : (Except.ok o : Except Err Nat) = .ok a := ha
+      injection this with this
+      subst this
+      exact ho
+  · intro a κ1 s1 hinv1 hext1 hb1 ha
+    apply post_good_bind (P := fun r s2 => s2.objs = s1.objs)
+    · apply Post.mono (inv_mkSys hinv1 a box pbc symbols masses (ha a rfl))
+      intro r s2 hk
+      exact ⟨hk.good, hk.objs⟩
+    · intro i κ2 s2 hinv2 hext2 hb2 hobjs
+      apply post_good_bind (P := fun _ _ => True)
+      · cases scale with
+        | false => exact ⟨Good.refl hinv2, trivial⟩
+        | true =>
+          simp only [if_true]
+          rw [post_bind_getS, post_bind_keyErr]
+          split
+          · rename_i pa hfind
+            have hp := hinv2.find_ok a "pos" pa hfind
+            apply Post.mono (inv_sysPropSetScaled hinv2 i "pos" none (arrVal s2 pa) (arrVal_ok hinv2 hp.valid))
+            intro r s3 hk
+            exact ⟨Good.of_kept hk, trivial⟩
+          · exact ⟨Good.refl hinv2, trivial⟩
+      · intro u κ3 s3 hinv3 hext3 hb3 _
+        exact Good.refl hinv3
+
 end Atomman.C06
